@@ -7,13 +7,15 @@
 #include <unistd.h>
 #include <inttypes.h>
 
-#define MAXW 64
+#define MAXW 300
 
 static char*  vf_line = NULL;
 static size_t vf_cap = 0;
 
 /* read one line from stdin, without the newline; NULL at EOF */
 static char* rd_line(void) {
+  static int inited = 0;
+  if (not inited) { inited = 1; if (getenv("VF_FLUSH")) { setvbuf(stdout, NULL, _IOLBF, 0); } }
   ssize_t n = getline(&vf_line, &vf_cap, stdin);
   if (n < 0) { return NULL; }
   while (n > 0 and (vf_line[n-1] is '\n' or vf_line[n-1] is '\r')) { vf_line[--n] = 0; }
